@@ -213,6 +213,11 @@ def solve_sat(
                     pos_count[lit] += 1
                 else:
                     neg_count[-lit] += 1
+        for lit in assumptions:
+            if lit > 0:
+                pos_count[lit] += 1
+            else:
+                neg_count[-lit] += 1
         pure = []
         for v in range(1, n_vars + 1):
             if pos_count[v] > 0 and neg_count[v] == 0:
